@@ -83,24 +83,26 @@ theorem inv_reqHeaders (d : Core) (e : Bool) (kind : ReqKind) (ws : Bool) (v : V
   cases hcs : d.cs <;> cases kind <;> cases v <;> cases e <;> simp only [clientEvent, hcs] <;> inv_tree d
 
 set_option maxHeartbeats 16000000 in
-theorem inv_reqBody (d : Core) (ev : AEv) (hev : (∃ v, ev = .reqData v) ∨ (∃ ne, ev = .reqEOM ne)) (q dr0 : Bool)
+theorem inv_reqBody (d : Core) (ev : AEv) (hev : (∃ v, ev = .reqData v) ∨ (∃ ne, ev = .reqEOM ne) ∨ ev = .reqTrailers) (q dr0 : Bool)
     (h : InvB { d with draining := dr0 } = true) (hp : d.paused = none) (hb : d.bad = false)
     (hpt : d.pt = false) (hG : d.stale = true ∨ d.procReqErr = false)
     (hdr : d.draining = q) (hq : q = true → dr0 = true) :
     InvB (W.fin q (clientEvent d ev)).c = true := by
-  rcases hev with ⟨v, rfl⟩ | ⟨ne, rfl⟩
+  rcases hev with ⟨v, rfl⟩ | ⟨ne, rfl⟩ | rfl
   · cases hcs : d.cs <;> cases v <;> simp only [clientEvent, hcs] <;> inv_tree d
+  · cases hcs : d.cs <;> simp only [clientEvent, hcs] <;> inv_tree d
   · cases hcs : d.cs <;> simp only [clientEvent, hcs] <;> inv_tree d
 set_option maxHeartbeats 16000000 in
 theorem inv_respEvent (d : Core) (ev : AEv)
-    (hev : (∃ e k v, ev = .respHeaders e k v) ∨ (∃ v, ev = .respData v) ∨ (∃ ne, ev = .respEOM ne)) (q dr0 : Bool)
+    (hev : (∃ e k v, ev = .respHeaders e k v) ∨ (∃ v, ev = .respData v) ∨ (∃ ne, ev = .respEOM ne) ∨ ev = .respTrailers) (q dr0 : Bool)
     (h : InvB { d with draining := dr0 } = true) (hp : d.paused = none) (hb : d.bad = false)
     (hpt : d.pt = false) (hA : d.attached = true)
     (hdr : d.draining = q) (hq : q = true → dr0 = true) :
     InvB (W.fin q (serverEvent d ev)).c = true := by
-  rcases hev with ⟨e, k, v, rfl⟩ | ⟨v, rfl⟩ | ⟨ne, rfl⟩
+  rcases hev with ⟨e, k, v, rfl⟩ | ⟨v, rfl⟩ | ⟨ne, rfl⟩ | rfl
   · cases hss : d.ss <;> cases k <;> cases v <;> cases e <;> simp only [serverEvent, hss] <;> inv_tree d
   · cases hss : d.ss <;> cases v <;> simp only [serverEvent, hss] <;> inv_tree d
+  · cases hss : d.ss <;> simp only [serverEvent, hss] <;> inv_tree d
   · cases hss : d.ss <;> simp only [serverEvent, hss] <;> inv_tree d
 
 end MitmVerif.C03
